@@ -58,7 +58,7 @@ def isChannel (s : Str) : Bool :=
   | [] => false
   | c :: _ =>
     !s.contains ',' && !s.contains '\x07' && Gen.chanTypes.contains c &&
-      decide (s.length ≤ Gen.channelLen) && (splitNone1 s).length == 1
+      decide (s.length ≤ Gen.channelLen) && s.all (fun x => !isSpace x)      -- `s.split() == [s]`
 
 /-! ## 2. capability string algebra -/
 
